@@ -625,6 +625,10 @@ func (env *LEnv) Update(k, v *LVal) *LVal {
 }
 
 func (env *LEnv) update(k, v *LVal) *LVal {
+	// The environment the update was requested in: an error is reported at
+	// ITS current location (opSetUpdate points it at the key), not at
+	// whatever the root environment evaluated last.
+	origin := env
 	for {
 		_, ok := env.scope[k.Str]
 		if ok {
@@ -634,7 +638,7 @@ func (env *LEnv) update(k, v *LVal) *LVal {
 		if env.parent == nil {
 			lerr := env.Runtime.Package.Update(k, v)
 			if lerr.Type == LError {
-				if err := env.ErrorAssociate(lerr); err != nil {
+				if err := origin.ErrorAssociate(lerr); err != nil {
 					return err
 				}
 				return lerr
